@@ -23,6 +23,7 @@ MODULES = {
     "C14": "c14_network",
     "C15": "c14_network",
     "C17": "c17_globals",
+    "C18": "c18_roundtrip",
     "C19": "c19_solve",
 }
 
